@@ -23,6 +23,7 @@ import (
 	abci "github.com/cometbft/cometbft/abci/types"
 	upgradetypes "github.com/cosmos/cosmos-sdk/x/upgrade/types"
 	aoltypes "github.com/medibloc/panacea-core/v2/x/aol/types"
+	didtypes "github.com/medibloc/panacea-core/v2/x/did/types"
 	pnfttypes "github.com/medibloc/panacea-core/v2/x/pnft/types"
 )
 
@@ -47,6 +48,7 @@ type nodeState struct {
 	hashes  map[int64][]byte
 	conc    *concurrent
 	crashes int
+	committedStores map[string]string // raw custom stores right after the last Commit
 	restarted bool // no block has been committed since the last restart
 }
 
@@ -72,6 +74,7 @@ func (x *Exec) nodeAfterCommit(appHash []byte) {
 		return
 	}
 	ns.hashes[x.C.Height] = appHash
+	ns.committedStores = x.C.customStores()
 	if ns.twin == nil || ns.blk == nil {
 		return
 	}
@@ -129,6 +132,23 @@ func (x *Exec) nodeCrash() string {
 		ns.blk = nil
 		ns.crashes++
 		ns.restarted = true
+		if ns.committedStores != nil {
+			now := x.C.customStores()
+			nd := 0
+			for k, v := range ns.committedStores {
+				if now[k] != v {
+					nd++
+				}
+			}
+			for k := range now {
+				if _, ok := ns.committedStores[k]; !ok {
+					nd++
+				}
+			}
+			if nd > 0 {
+				x.Flag("C10-restart-state", fmt.Sprintf("after the restart %d entries of the AOL/DID/PNFT stores differ from the state of the last Commit (height %d)", nd, x.C.Height))
+			}
+		}
 		if want, ok := ns.hashes[x.C.Height]; ok {
 			if got := x.C.App.LastCommitID().Hash; !bytes.Equal(got, want) {
 				x.Flag("C10-restart-hash", fmt.Sprintf("after the restart the application hash at height %d is %x, Commit had returned %x", x.C.Height, got, want))
@@ -351,6 +371,10 @@ func concRequests(accts []Acct) []concReq {
 		add(fmt.Sprintf("denoms-by-%d", i), "/panacea.pnft.v2.Query/DenomsByOwner", &pnfttypes.QueryDenomsByOwnerRequest{Owner: a.Addr.String()})
 	}
 	add("denoms", "/panacea.pnft.v2.Query/Denoms", &pnfttypes.QueryDenomsRequest{})
+	for i := 0; i < 3; i++ {
+		did := didtypes.NewDID(mkDidKey(i).pub)
+		add(fmt.Sprintf("did-%d", i), "/panacea.did.v2.Query/DID", &didtypes.QueryDIDRequest{DidBase64: base64Std([]byte(did))})
+	}
 	return out
 }
 
@@ -360,14 +384,18 @@ func concRequests(accts []Acct) []concReq {
 func genNodeHistory(r *RNG, nBlocks int) []string {
 	var inner []string
 	var qpool []string
-	k := r.Intn(10)
+	k := r.Intn(11)
 	switch {
+	case k == 10:
+		inner = genAolListHistory(r.Fork(), 4) // genesis-seeded state: the twin imports the same genesis maps in another order
 	case k < 5:
 		inner = genAolHistory(r.Fork(), nBlocks)
-	case k < 8:
+	case k < 7:
 		inner = genPnftHistory(r.Fork(), nBlocks)
-	default:
+	case k < 9:
 		inner = genBurnHistory(r.Fork(), nBlocks)
+	default:
+		inner = genDidHistory(r.Fork(), nBlocks)
 	}
 	// queries seen in the inner history are re-asked at historical heights
 	for _, l := range inner {
@@ -454,11 +482,11 @@ func genNodeHistory(r *RNG, nBlocks int) []string {
 				histQ()
 			}
 			if inBlock && r.Intn(14) == 0 { // stop after a prefix of the block's transactions
-				out = append(out, "CRASH", "DUMP aol", "DUMP pnft", curBlock)
+				out = append(out, "CRASH", "DUMP aol", "DUMP pnft", "DUMP did", curBlock)
 			}
 		case "ENDBLOCK":
 			if r.Intn(12) == 0 { // stop after the last transaction, before EndBlock/Commit: the block is lost
-				out = append(out, "CRASH", "DUMP aol", "DUMP pnft")
+				out = append(out, "CRASH", "DUMP aol", "DUMP pnft", "DUMP did")
 				inBlock = false
 				histQ()
 				continue
@@ -467,7 +495,7 @@ func genNodeHistory(r *RNG, nBlocks int) []string {
 			inBlock = false
 			height++
 			if r.Intn(6) == 0 { // stop right after Commit
-				out = append(out, "CRASH", "DUMP aol", "DUMP pnft")
+				out = append(out, "CRASH", "DUMP aol", "DUMP pnft", "DUMP did")
 			}
 			if r.Intn(2) == 0 {
 				histQ()
